@@ -328,4 +328,252 @@ theorem buildPass_ok {s : Nat} {p : Pass} (h : buildPass R G s = .ok p) :
 
 end
 
+section
+variable (R : Rules) (G : Graph)
+
+theorem scanInputs_err (cur : Nat) (l : List (Option Nat)) (w : Walk) (h : (scanInputs R G cur l w).err = none) : w.err = none := by
+  induction l generalizing w with
+  | nil => simpa [scanInputs] using h
+  | cons i rest ih =>
+    cases i with
+    | none => exact ih w (by simpa [scanInputs] using h)
+    | some inp =>
+      simp only [scanInputs] at h
+      split at h
+      · simp at h
+      · have := ih _ h; simpa using this
+      · have := ih _ h; simpa using this
+
+theorem setIfm_err (w : Walk) (o : POp) (r : Row) (h : (setIfm G w o r).err = none) : w.err = none := by
+  unfold setIfm at h
+  split at h
+  · split at h
+    · simp at h
+    · split at h
+      · simp at h
+      · split at h
+        · simp at h
+        · exact h
+  · exact h
+
+/-- what `acceptOp` does to `acc`, `flags`, `primary` and `err` -/
+theorem acceptOp_cases (w : Walk) (q : QItem) (ri : Nat) (r : Row) :
+    ((acceptOp R G w q ri r).acc = w.acc ∧ (acceptOp R G w q ri r).flags = w.flags ∧ (acceptOp R G w q ri r).primary = w.primary ∧
+      (acceptOp R G w q ri r).err.isSome = true) ∨
+    ((acceptOp R G w q ri r).acc = newAcc q ri :: w.acc ∧ (acceptOp R G w q ri r).flags = flagStep w.flags r ∧
+      (acceptOp R G w q ri r).primary = (if blockTypeOf (G.op q.op).type != 0 then some q.op else w.primary) ∧
+      ((acceptOp R G w q ri r).err = none → w.err = none ∧ ¬ (r.set.isNone = true ∧ (G.op q.op).runOnNpu = true))) := by
+  unfold acceptOp
+  simp only []
+  have hf := setIfm_frame G (acceptCore G w q ri r) (G.op q.op) r
+  have he := setIfm_err G (acceptCore G w q ri r) (G.op q.op) r
+  split
+  · left; simp
+  · right
+    split
+    · rename_i hsome
+      refine ⟨hf.1, hf.2.1, hf.2.2.2.1, ?_⟩
+      intro hn; rw [hn] at hsome; simp at hsome
+    · split
+      · simp only [fail_acc, fail_flags, fail_primary, fail_err]
+        exact ⟨hf.1, hf.2.1, hf.2.2.2.1, by simp⟩
+      · rename_i hfb
+        have hs := scanInputs_frame R G q.op (G.op q.op).inputs.reverse (setIfm G (acceptCore G w q ri r) (G.op q.op) r)
+        refine ⟨hs.1.trans hf.1, hs.2.1.trans hf.2.1, hs.2.2.2.1.trans hf.2.2.2.1, ?_⟩
+        intro hn
+        have h1 := scanInputs_err R G _ _ _ hn
+        have h2 := he h1
+        refine ⟨h2, ?_⟩
+        simpa using hfb
+
+/-- `err` is never reset -/
+theorem walkStep_err (w : Walk) (h : (walkStep R G w).err = none) : w.err = none := by
+  unfold walkStep at h
+  split at h
+  · exact h
+  · simp only [] at h
+    split at h
+    · exact h
+    · split at h
+      · rename_i ri r _
+        rcases acceptOp_cases R G { w with queue := _ } _ ri r with ⟨_, _, _, he⟩ | ⟨_, _, _, he⟩
+        · rw [h] at he; simp at he
+        · exact (he h).1
+      · split at h
+        · simp at h
+        · exact h
+
+structure WInv2 (w : Walk) : Prop where
+  prim : w.primary = none → ∀ a ∈ w.acc, blockTypeOf (G.op a.op).type = 0
+  fallback : w.err = none → ∀ a ∈ w.acc, ∀ r, R.rows[a.row]? = some r → r.set = none → (G.op a.op).runOnNpu = false
+  primSome : ∀ o, w.primary = some o → o ∈ w.ops ∧ blockTypeOf (G.op o).type ≠ 0
+
+theorem walkStep_inv2 (w : Walk) (h : WInv2 R G w) : WInv2 R G (walkStep R G w) := by
+  have herr := walkStep_err R G w
+  revert herr
+  unfold walkStep
+  split
+  · intro _; exact h
+  · rename_i q rest hqr
+    simp only []
+    split
+    · intro _; exact ⟨h.prim, h.fallback, h.primSome⟩
+    · split
+      · rename_i ri r hfr
+        have hrow := findRow_spec R _ _ _ _ _ hfr
+        intro herr
+        rcases acceptOp_cases R G { w with queue := rest } q ri r with ⟨ha, _, hp, he⟩ | ⟨ha, _, hp, he⟩
+        · refine ⟨?_, ?_, ?_⟩
+          · rw [ha, hp]; exact h.prim
+          · intro hn; rw [hn] at he; simp at he
+          · intro o ho; rw [hp] at ho
+            have := h.primSome o ho
+            simpa [Walk.ops, ha] using this
+        · refine ⟨?_, ?_, ?_⟩
+          · rw [ha, hp]
+            intro hnone a ha'
+            split at hnone
+            · simp at hnone
+            · rename_i hbt
+              rcases List.mem_cons.mp ha' with rfl | ha''
+              · simpa [newAcc] using hbt
+              · exact h.prim hnone a ha''
+          · intro hn a ha' r' hr' hset
+            rw [ha] at ha'
+            rcases List.mem_cons.mp ha' with rfl | ha''
+            · have hr2 : r' = r := by
+                have := hrow.1; simp only [newAcc] at hr'; rw [this] at hr'; exact (Option.some.inj hr').symm
+              subst hr2
+              have := (he hn).2
+              cases hnpu : (G.op q.op).runOnNpu with
+              | false => simp [newAcc, hnpu]
+              | true => exact absurd ⟨by simp [hset], hnpu⟩ this
+            · exact h.fallback (herr hn) a ha'' r' hr' hset
+          · intro o ho
+            rw [hp] at ho
+            simp only [Walk.ops, ha, List.map_cons, List.mem_cons]
+            split at ho
+            · rename_i hbt
+              have : o = q.op := (Option.some.inj ho).symm
+              subst this
+              exact ⟨Or.inl rfl, by simpa using hbt⟩
+            · have := h.primSome o ho
+              exact ⟨Or.inr this.1, this.2⟩
+      · split
+        · intro _; exact ⟨h.prim, by simp, h.primSome⟩
+        · intro _; exact ⟨h.prim, h.fallback, h.primSome⟩
+
+theorem walkRun_err (n : Nat) (w : Walk) (h : (walkRun R G n w).err = none) : w.err = none := by
+  induction n generalizing w with
+  | zero =>
+    simp only [walkRun] at h; split at h
+    · exact h
+    · simp at h
+  | succ n ih =>
+    simp only [walkRun] at h; split at h
+    · exact h
+    · exact walkStep_err R G w (ih _ h)
+
+theorem walkRun_inv2 (n : Nat) (w : Walk) (h : WInv2 R G w) : WInv2 R G (walkRun R G n w) := by
+  induction n generalizing w with
+  | zero =>
+    simp only [walkRun]; split
+    · exact h
+    · exact ⟨h.prim, by simp, h.primSome⟩
+  | succ n ih =>
+    simp only [walkRun]; split
+    · exact h
+    · exact ih _ (walkStep_inv2 R G w h)
+
+theorem walkStart_inv2 (start : List Nat) : WInv2 R G (walkStart start) :=
+  ⟨by simp [walkStart], by simp [walkStart], by simp [walkStart]⟩
+
+/-- the walk ends with an empty queue -/
+theorem walkRun_queue (n : Nat) (w : Walk) : (walkRun R G n w).queue = [] := by
+  induction n generalizing w with
+  | zero =>
+    simp only [walkRun]; split
+    · rename_i h; simpa using h
+    · simp
+  | succ n ih =>
+    simp only [walkRun]; split
+    · rename_i h; simpa using h
+    · exact ih _
+
+end
+
+section
+variable (R : Rules) (G : Graph)
+
+/-- the relation `trace_no_block` gives between an entry and a later (older) one -/
+def NoBlock (x y : Acc) : Prop :=
+  ∀ rx ry, R.rows[x.row]? = some rx → R.rows[y.row]? = some ry → ry.toSet &&& rx.incompat = 0
+
+theorem trace_pairwise (hc : NoClear R) {l : List Acc} {f : Nat} (h : Trace R G l f) : l.Pairwise (NoBlock R) := by
+  induction l generalizing f with
+  | nil => exact List.Pairwise.nil
+  | cons a rest ih =>
+    obtain ⟨f0, ht⟩ := trace_tail R G h
+    refine List.Pairwise.cons ?_ (ih ht)
+    intro b hb rx ry hrx hry
+    exact trace_no_block R G hc h b hb rx ry hrx hry
+
+theorem pairwise_either {α : Type} {S : α → α → Prop} {l : List α} (h : l.Pairwise S) :
+    ∀ a ∈ l, ∀ b ∈ l, a ≠ b → S a b ∨ S b a := by
+  induction l with
+  | nil => simp
+  | cons x rest ih =>
+    obtain ⟨hx, hrest⟩ := List.pairwise_cons.mp h
+    intro a ha b hb hne
+    rcases List.mem_cons.mp ha with hax | har <;> rcases List.mem_cons.mp hb with hbx | hbr
+    · exact absurd (hax.trans hbx.symm) hne
+    · exact Or.inl (hax ▸ hx b hbr)
+    · exact Or.inr (hbx ▸ hx a har)
+    · exact ih hrest a har b hbr hne
+
+/-- in a pairwise list an entry that relates to nothing before it is the head -/
+theorem pairwise_head {α : Type} {S : α → α → Prop} {l : List α} (h : l.Pairwise S) (a : α) (ha : a ∈ l)
+    (hno : ∀ b ∈ l, b ≠ a → ¬ S b a) : l.head? = some a := by
+  cases l with
+  | nil => simp at ha
+  | cons x rest =>
+    obtain ⟨hx, _⟩ := List.pairwise_cons.mp h
+    rcases List.mem_cons.mp ha with rfl | ha'
+    · rfl
+    · by_cases hxa : x = a
+      · subst hxa; rfl
+      · exact absurd (hx a ha') (hno x List.mem_cons_self hxa)
+
+theorem nodup_all_eq_length {l : List Nat} (hn : l.Nodup) (x : Nat) (h : ∀ y ∈ l, y = x) : l.length ≤ 1 := by
+  match l, hn with
+  | [], _ => simp
+  | [_], _ => simp
+  | a :: b :: rest, hn =>
+    have ha := h a (by simp)
+    have hb := h b (by simp)
+    rw [List.nodup_cons] at hn
+    exact absurd (by simp [ha, hb]) hn.1
+
+end
+
+/-! ## placement -/
+
+theorem placementOf_ok {f : Nat} {pl : Placement} (h : placementOf f = .ok pl) :
+    hasFlag f flagNpu = (pl == .npu) ∧ hasFlag f flagCpu = (pl == .cpu) ∧ hasFlag f flagMemoryOnly = (pl == .memoryOnly) ∧
+    hasFlag f flagStartupInit = (pl == .startupInit) := by
+  unfold placementOf at h
+  cases h1 : hasFlag f flagNpu <;> cases h2 : hasFlag f flagCpu <;> cases h3 : hasFlag f flagMemoryOnly <;>
+    cases h4 : hasFlag f flagStartupInit <;> simp [h1, h2, h3, h4] at h <;> subst h <;> decide
+
+theorem hasFlag_or_elementwise (f b : Nat) (hb : flagElementWise &&& b = 0) : hasFlag (f ||| flagElementWise) b = hasFlag f b := by
+  unfold hasFlag
+  rw [Nat.and_or_distrib_right, hb, Nat.or_zero]
+
+theorem finFlags_placement (w : Walk) (b : Nat) (hb : flagElementWise &&& b = 0) : hasFlag (finFlags w) b = hasFlag w.flags b := by
+  unfold finFlags
+  split
+  · exact hasFlag_or_elementwise _ _ hb
+  · rfl
+
+
 end VelaVerif.Lemmas.PassPackingWalk
